@@ -1258,6 +1258,14 @@ class Interp:
             r = base.call_method(self, name, args, kwargs, st, node)
             if r is not NotImplemented:
                 return r
+            mcls = getattr(base, 'cls', None)
+            if mcls and self.depth < self.max_depth:
+                q = self.repo.resolve_method(mcls, name)
+                if q:
+                    fn = self.repo.func(q)
+                    if any(isinstance(d, ast.Name) and d.id == 'staticmethod' for d in fn.decorator_list):
+                        return self.inline_call(fn, q.partition(':')[0], args, kwargs, st)
+                    return self.inline_call(fn, q.partition(':')[0], args, kwargs, st, self_val=base)
         hk = '.' + name
         if hk in self.hooks:
             r = self.hooks[hk](self, base, args, kwargs, st, node)
